@@ -576,11 +576,29 @@ theorem modCh_inv {s : St} (h : Inv s) {i : Nat} (hi : i < 9) {f : Channel → C
   · exact h.chs ch hm
   · rw [he]; exact hf _ (h.chs _ (List.getElem_mem hlt))
 
+/-- field 1 always reads `currChan` (the shared selector, or `curr_chan[0]`) -/
+theorem curr_false (s : St) : s.curr false = s.currChan := by
+  unfold St.curr; simp
+
+/-- a channel number of field 1 (bit 1 clear) is stored in `currChan` -/
+theorem setCurr_field1 (s : St) {n : Nat} (h : (n >>> 1) &&& 1 = 0) :
+    (s.setCurr n).currChan = n ∧ (s.setCurr n).currChan2 = s.currChan2 := by
+  unfold St.setCurr; simp [h]
+
+theorem setCurr_chans (s : St) (n : Nat) : (s.setCurr n).chans = s.chans := by
+  unfold St.setCurr; split <;> rfl
+
+theorem setCurr_err (s : St) (n : Nat) : (s.setCurr n).err = s.err := by
+  unfold St.setCurr; split <;> rfl
+
+theorem setCurr_last (s : St) (n : Nat) : (s.setCurr n).last0 = s.last0 ∧ (s.setCurr n).last1 = s.last1 ∧ (s.setCurr n).xds = s.xds := by
+  unfold St.setCurr; split <;> exact ⟨rfl, rfl, rfl⟩
+
 theorem switchChannel_inv {s : St} (h : Inv s) {chan : Nat} (hi : chan < 9) (new : Nat) :
     Inv (s.switchChannel chan new) := by
   unfold St.switchChannel
   have := modCh_inv h hi (f := fun ch => wordBreak ch true) (fun ch hc => wordBreak_inv hc true)
-  exact ⟨this.err, this.len, this.chs⟩
+  exact ⟨by rw [setCurr_err]; exact this.err, by rw [setCurr_chans]; exact this.len, by rw [setCurr_chans]; exact this.chs⟩
 
 theorem chan_lt (cur c1 : Nat) (f2 : Bool) : (cur &&& 4) + (if f2 then 2 else 0) + ((c1 >>> 3) &&& 1) < 8 := by
   have h1 : cur &&& 4 ≤ 4 := Nat.and_le_right
@@ -605,8 +623,8 @@ theorem ru_roll {c2 k : Nat} (h : c2 &&& 15 = k) (hk : k = 5 ∨ k = 6 ∨ k = 7
 
 theorem captionCommand_inv {s : St} (h : Inv s) (c1 c2 : Nat) (f2 : Bool) : Inv (captionCommand s c1 c2 f2) := by
   unfold captionCommand
-  have hchan := chan_lt s.currChan c1 f2
-  generalize (s.currChan &&& 4) + (if f2 then 2 else 0) + ((c1 >>> 3) &&& 1) = chan at hchan ⊢
+  have hchan := chan_lt (s.curr f2) c1 f2
+  generalize (s.curr f2 &&& 4) + (if f2 then 2 else 0) + ((c1 >>> 3) &&& 1) = chan at hchan ⊢
   have hc9 : chan < 9 := by omega
   have h3 := and3_lt chan
   have h4 := or4_lt hchan
@@ -647,6 +665,15 @@ theorem xdsGate_some {s s' : St} {f : Bool} {b0 : Nat} (h : xdsGate s f b0 = som
     | (cases h; done)
     | (cases h; exact ⟨rfl, rfl, rfl, rfl, rfl⟩)
 
+theorem xdsGate_some_curr {s s' : St} {f : Bool} {b0 : Nat} (h : xdsGate s f b0 = some s') (f' : Bool) :
+    s'.curr f' = s.curr f' := by
+  unfold xdsGate at h
+  simp only [] at h
+  repeat' split at h
+  all_goals first
+    | (cases h; done)
+    | (cases h; rfl)
+
 theorem xdsConsumed_inv {s : St} (h : Inv s) (f : Bool) (b0 : Nat) : Inv (xdsConsumed s f b0) := by
   unfold xdsConsumed
   simp only []
@@ -660,8 +687,8 @@ theorem text_idx_lt (cur : Nat) (f2 : Bool) : (cur &&& 5) + (if f2 then 2 else 0
 
 theorem decodeMain_inv {s : St} (h : Inv s) (f : Bool) (b0 b1 : Nat) : Inv (decodeMain s f b0 b1) := by
   unfold decodeMain
-  have hi := text_idx_lt s.currChan f
-  generalize (s.currChan &&& 5) + (if f then 2 else 0) = i at hi ⊢
+  have hi := text_idx_lt (s.curr f) f
+  generalize (s.curr f &&& 5) + (if f then 2 else 0) = i at hi ⊢
   simp only []
   repeat' split
   all_goals first
